@@ -21,7 +21,7 @@ CHECKS = {
         level="exploration",
         engine="E1-enum",
         technique="bounded-exhaustive enumeration of inheritance chains x per-level block assignments x extends forms against an independent block resolver; enumerated include/import/error cases under a wall cap",
-        text="Every chain of 1..3 (thorough 4) templates in which each non-root template gives each block of {a, b nested in a, c} one of {absent, override, super() before, override around super(), super() twice} (125 assignments per level; 3.1e4 chains of length 3 quick, 3.9e6 of length 4 thorough), with and without block c in the root, with the most derived template extending by static name, by a name from the context, inside a taken if and inside a not-taken if, is rendered - directly and, for chains up to length 2 (thorough 3), in 8 further ways (included at top level, in a child block, in a macro called twice, in a loop body; include captured by a set block in a plain host and at the top level of an extending host, there also below a filter block and below a call block) - and compared with a 60-line resolver (most derived definition wins, super() moves a per-block cursor to the next definition, nested block tags render the most derived definition, text outside blocks of extending templates is discarded, super() without a parent fails). 50 hand-written cases cover include placements (top level, loop, macro, block, with, child block), name forms (string, list with missing entries, missing with/without ignore missing, dynamic, non-string), what an import exposes, and the error family (extends/include cycles of length 1..3, double extends, missing parent, super() without parent or outside a block, required blocks, self.block()), each under a 10 s wall cap so a hang counts as a failure; every fixed case that renders is also included 120 times from one host render and must give its output 120 times (nothing a composition charges per render may be left behind). Block fragments through a reused state: after a full render of every chain up to length 2 (thorough 3) the blocks a, b, c, a, b are rendered through State::render_block, with a call in the root's block a that fails exactly once at every position 1..6 or never; every fragment must equal the resolver's.",
+        text="Every chain of 1..3 (thorough 4) templates in which each non-root template gives each block of {a, b nested in a, c} one of {absent, override, super() before, override around super(), super() twice} (125 assignments per level; 3.1e4 chains of length 3 quick, 3.9e6 of length 4 thorough), with and without block c in the root, with the most derived template extending by static name, by a name from the context, inside a taken if and inside a not-taken if, is rendered - directly and, for chains up to length 2 (thorough 3), in 11 further ways (twice from the block of an extending host whose names sort before or after the chain's; included at top level, in a child block, in a macro called twice, in a loop body; include captured by a set block in a plain host and at the top level of an extending host, there also below a filter block and below a call block) - and compared with a 60-line resolver (most derived definition wins, super() moves a per-block cursor to the next definition, nested block tags render the most derived definition, text outside blocks of extending templates is discarded, super() without a parent fails). 50 hand-written cases cover include placements (top level, loop, macro, block, with, child block), name forms (string, list with missing entries, missing with/without ignore missing, dynamic, non-string), what an import exposes, and the error family (extends/include cycles of length 1..3, double extends, missing parent, super() without parent or outside a block, required blocks, self.block()), each under a 10 s wall cap so a hang counts as a failure; every fixed case that renders is also included 120 times from one host render and must give its output 120 times (nothing a composition charges per render may be left behind). Block fragments through a reused state: after a full render of every chain up to length 2 (thorough 3) the blocks a, b, c, a, b are rendered through State::render_block, with a call in the root's block a that fails exactly once at every position 1..6 or never; every fragment must equal the resolver's.",
         note="The resolver is the trusted base for chains; the fixed cases carry hand-written expectations taken from the documentation. One expectation was corrected during calibration (include of an empty list renders nothing; the property does not demand an error there).",
         design_ref="2/C06",
     ),
@@ -29,7 +29,7 @@ CHECKS = {
         level="exploration",
         engine="E1-enum",
         technique="bounded-exhaustive enumeration of the ranked program space rendered by the engine and by an independent reference interpreter (differential)",
-        text="Every program of the depth-1 and depth-2 generator spaces (1.96e5 programs: all nestings of if/else, for with else / filter / unpacking / recursion, set, set-block, with, macros with defaults and keyword arguments, call blocks, filter blocks, autoescape blocks, break/continue, with leaves that read and write variables inside and outside every scope) under 3 contexts is rendered by the engine and by R, a 500-line tree walker over its own value type implementing the documented rules (scope per construct, clean scope per loop iteration, if-branches and template level persist, macro closures with definition-frame values, argument binding, caller, loop recursion, for-else, loop filters, unpacking, safe-string capture under auto-escaping); outputs must be identical or both must fail. Thorough adds every 13th depth-3 program (1.0e7 evaluations). A closure family (2048 programs) assigns a name inside each of 16 enclosing constructs (if/else arms taken and not, for/else with 0 or 1 iterations, loop else bodies reading names the loop bound, with, filter, set block, autoescape, nested ifs) in 4 assignment forms within a macro, a macro whose outer value changes after declaration, a call block in a loop and a macro in a macro, and reads it inside and after the construct. The loop object clause prints every field in every iteration for 11 sequence kinds (list, tuple, map keys, items, range, lazy iterable, string, reversed, sliced, |list, filtered loop) x lengths 0..4 against directly computed values. A loop-filter family (8 filter expressions naming loop, the enclosing target or outer names x 6 constructs around the filtered loop x 3 nesting depths) and an immediate second render of every program (same result required) complete the space.",
+        text="Every program of the depth-1 and depth-2 generator spaces (1.96e5 programs: all nestings of if/else, for with else / filter / unpacking / recursion, set, set-block, with, macros with defaults and keyword arguments, call blocks, filter blocks, autoescape blocks, break/continue, with leaves that read and write variables inside and outside every scope) under 3 contexts is rendered by the engine and by R, a 500-line tree walker over its own value type implementing the documented rules (scope per construct, clean scope per loop iteration, if-branches and template level persist, macro closures with definition-frame values, argument binding, caller, loop recursion, for-else, loop filters, unpacking, safe-string capture under auto-escaping); outputs must be identical or both must fail. Thorough adds every 13th depth-3 program (1.0e7 evaluations). A closure family (2048 programs) assigns a name inside each of 16 enclosing constructs (if/else arms taken and not, for/else with 0 or 1 iterations, loop else bodies reading names the loop bound, with, filter, set block, autoescape, nested ifs) in 4 assignment forms within a macro, a macro whose outer value changes after declaration, a call block in a loop and a macro in a macro, and reads it inside and after the construct. The loop object clause prints every field in every iteration for 11 sequence kinds (list, tuple, map keys, items, range, lazy iterable, string, reversed, sliced, |list, filtered loop) x lengths 0..4 against directly computed values. A loop-filter family (8 filter expressions naming loop, the enclosing target or outer names x 6 constructs around the filtered loop x 3 nesting depths) and an immediate second render of every program (same result required) complete the space. A repetition clause renders 9 shapes (macro calling macro, call blocks, filter and set blocks, with, loops, includes) N times in one render for N in {1, 2, 60, 101, 300, 2000} and requires the N-fold text: nothing a construct charges per use may accumulate.",
         note="R is the trusted base; every disagreement was triaged by hand (three engine defects fixed, two gaps in R closed). R deliberately leaves undefined: includes/blocks, `set` in a for-else body read afterwards, macro defaults referring to parameters, conditional expressions; such programs are reported as 'outside R'.",
         design_ref="2/C03",
     ),
@@ -53,7 +53,7 @@ CHECKS = {
         level="model_checking",
         engine="E2-bcmc",
         technique="explicit-state model checking of compiled instruction streams under an abstract VM (all control-flow paths), bound to the real VM by trace conformance through verif_hooks probes",
-        text="For every generated program (complete depth-1 space with blocks, includes, macros, call blocks, set/filter/autoescape/with blocks, recursive and filtered loops and break/continue, in three wrappings: plain with sentinel text, as child block under extends, as included template; a third of the depth-2 space quick / all of it plus a stride of depth 3 thorough; 17 hand-written shapes; a scope-contents family (6 scope-opening constructs alone and in pairs x 10 carriers that open no scope of their own - if/else arms, else bodies of empty and fully filtered loops, filter, autoescape, combinations - x 5 ways of binding a shadowing and a new name: afterwards the shadowed name must be back and the new one gone); every way of leaving a loop by break / continue, unconditional and conditional, through every sequence of 1..2 (thorough 3) nested scoped constructs out of {with, set block, filter block, autoescape on, autoescape off, if, call block}) each instruction stream and each entry point (main, every block, every macro body) is explored exhaustively by BFS over abstract states (pc, operand stack of Opaque|Int, frame kinds with loop iteration count and recursion return, capture stack, auto-escape depth, extends-pending, recursion depth) with every conditional jump, short-circuit jump and Iterate taken both ways; invariants on every state/transition: frame/capture/escape pops hit something the same evaluation pushed and of the right kind, no operand pop below the entry height, everything balanced at every end, every reachable state can reach an end. The model is bound to the code: each program is rendered under 3 contexts with probes recording every executed instruction, and every concrete trace must be a path of the explored abstract graph (same pc, operand height, frame kinds, capture and auto-escape depth at every step); real evaluations must also leave frames, captures and the auto-escape mode as they found them and a sentinel after the outermost construct must reach the output. The abstract machine also requires that no operand is left on the stack when a stream ends (the undefined left by a discarding capture excepted), and the hand-written shapes include recursive loops with else branches.",
+        text="For every generated program (complete depth-1 space with blocks, includes, macros, call blocks, set/filter/autoescape/with blocks, recursive and filtered loops and break/continue, in three wrappings: plain with sentinel text, as child block under extends, as included template; a third of the depth-2 space quick / all of it plus a stride of depth 3 thorough; 17 hand-written shapes; a scope-contents family (6 scope-opening constructs alone and in pairs x 10 carriers that open no scope of their own - if/else arms, else bodies of empty and fully filtered loops, filter, autoescape, combinations - x 5 ways of binding a shadowing and a new name: afterwards the shadowed name must be back and the new one gone); every way of leaving a loop by break / continue, unconditional and conditional, through every sequence of 1..2 (thorough 3) nested scoped constructs out of {with, set block, filter block, autoescape on, autoescape off, if, call block}) each instruction stream and each entry point (main, every block, every macro body) is explored exhaustively by BFS over abstract states (pc, operand stack of Opaque|Int, frame kinds with loop iteration count and recursion return, capture stack, auto-escape depth, extends-pending, recursion depth) with every conditional jump, short-circuit jump and Iterate taken both ways; invariants on every state/transition: frame/capture/escape pops hit something the same evaluation pushed and of the right kind, no operand pop below the entry height, everything balanced at every end, every reachable state can reach an end. The model is bound to the code: each program is rendered under 3 contexts with probes recording every executed instruction, and every concrete trace must be a path of the explored abstract graph (same pc, operand height, frame kinds, capture and auto-escape depth at every step); real evaluations must also leave frames, captures and the auto-escape mode as they found them and a sentinel after the outermost construct must reach the output. The abstract machine also requires that no operand is left on the stack when a stream ends (the undefined left by a discarding capture excepted), and the hand-written shapes include recursive loops with else branches. Handled errors (630 programs): 7 callees (macros failing deep inside nested constructs or in a nested macro, a macro recursing until the limit refuses it, blocks rendered through the state, two succeeding controls) are called by a host function that swallows the failure, from 6 kinds of places (with+for, set block under a filter, macro body, call block in a loop, auto-escape in an if, top level) under 15 recursion limits from 500 down to 6, so that calls are also refused at their entry; if the host itself fits the limit, the output must be exactly the caller's names, loop fields, captures and escape mode as they were, with the fallback in place of the failed call.",
         note="Bounds: loops iterate 0..2 times, loop recursion nests <= 3. Include/CallBlock/FastSuper/macro calls are atomic in the caller and each callee stream is explored on its own. A conformance failure is a machinery error (key MACHINERY:conformance). `do` and *args calls are outside the alphabet.",
         design_ref="2/C05",
     ),
@@ -117,7 +117,7 @@ CHECKS = {
         level="exploration",
         engine="E1-enum",
         technique="bounded-exhaustive enumeration of programs x every fuel budget from 0 to consumption+3 plus boundary budgets up to u64::MAX",
-        text="For every program of the depth-1 generator space, a fixed-stride subset of the depth-2 space, five multi-template families (include, include in a loop, extends+super, import/from-import of macros, three-level inheritance) and run-time failing variants, under 2 contexts: the unlimited render, the render under 10^6 (consumption c; consumed+remaining == budget at the end and at every probe() call placed inside included templates, macros and blocks, with strictly increasing consumption across probes, which exposes a second tracker in a nested evaluation), then every single budget 0..=c+3 must show exactly one threshold T = c+1 with OutOfFuel below and the unlimited result from T on, determinism at T and T-1, and 7 boundary budgets (2^31 ... 2^63-1, 2^63, 2^64-1). 16 programs in which a host function calls a macro or caller back and swallows its error check that the rest of the render stays metered.",
+        text="For every program of the depth-1 generator space, a fixed-stride subset of the depth-2 space, five multi-template families (include, include in a loop, extends+super, import/from-import of macros, three-level inheritance) and run-time failing variants, under 2 contexts: the unlimited render, the render under 10^6 (consumption c; consumed+remaining == budget at the end and at every probe() call placed inside included templates, macros and blocks, with strictly increasing consumption across probes, which exposes a second tracker in a nested evaluation), then every single budget 0..=c+3 must show exactly one threshold T = c+1 with OutOfFuel below and the unlimited result from T on, determinism at T and T-1, and 7 boundary budgets (2^31 ... 2^63-1, 2^63, 2^64-1). 16 programs in which a host function calls a macro or caller back and swallows its error check that the rest of the render stays metered. Further subjects reach the engine through State::render_block: a host function rendering one of the template's own or inherited blocks during the render, and an embedder rendering blocks on the same state after the render; budget thresholds, monotone probes and total consumption must account for them like for any other evaluation.",
         note="Instruction-level accounting is not cross-checked against an independent instruction count (planned with the C05 hooks). The depth-2 space is visited by stride.",
         design_ref="2/C13",
     ),
